@@ -672,7 +672,7 @@ def main_check(cid, tier, base_seed, jobs=None):
     if os.environ.get('VERIF_DIGEST_OUT'):
         with open(os.environ['VERIF_DIGEST_OUT'], 'w') as f:
             json.dump([[r['idx'], r['status'], r['digest'], r['key']] for r in results], f)
-    determinism = determinism_check(mod, tier, base_seed, results) if results else {}
+    determinism = determinism_check(mod, tier, base_seed, results) if (results and not os.environ.get('VERIF_SKIP_DET')) else {}
     if determinism.get('mismatches'):
         herr.append('determinism self-test failed: %r' % determinism['mismatches'][:2])
     cov = summarise(mod, tier, base_seed, results, herr, skipped, wall, jobs, new_viol, known_hits,
